@@ -32,6 +32,10 @@ type c11Fault struct {
 	// part of the body) are sent before the connection goes away: a transport fault
 	// inside a message is still a transport fault
 	Partial int `json:"partial,omitempty"`
+	// Glued (close / reset / cease, also as End of inbound): the last handshake message
+	// and the end arrive in one piece - for cease: the Cease, a KEEPALIVE behind it
+	// and the FIN - while the plugin's callbacks keep the FSM goroutine busy
+	Glued bool `json:"glued,omitempty"`
 }
 
 type c11Case struct {
@@ -49,7 +53,7 @@ func c11Prop(t *testing.T, r *hx.Run) func(c c11Case) hx.Verdict {
 		seq := ""
 		for _, f := range c.Faults {
 			kinds[f.Kind] = true
-			seq += f.Kind[:2] + f.State + ","
+			seq += f.Kind[:2] + f.State + map[bool]string{true: "g"}[f.Glued] + ","
 		}
 		v := hx.Verdict{Class: fmt.Sprintf("passive=%v/via=%s/kinds=%d/stall=%v", c.Passive, c.Via, len(kinds), kinds["stall"])}
 		if len(kinds) >= 2 || kinds["stall"] {
@@ -68,6 +72,11 @@ func c11Prop(t *testing.T, r *hx.Run) func(c c11Case) hx.Verdict {
 		for _, f := range c.Faults {
 			if f.Kind == "reset-after-open" {
 				p.Plugin.SpinUs = map[string]int64{"open": 600} // OnOpenMessage takes a while
+			}
+		}
+		for _, f := range c.Faults {
+			if f.Glued && p.Plugin.SpinUs == nil {
+				p.Plugin.SpinUs = map[string]int64{"open": 150, "est": 150}
 			}
 		}
 		var dev *hx.Dev
@@ -107,7 +116,27 @@ func c11Prop(t *testing.T, r *hx.Run) func(c c11Case) hx.Verdict {
 			// endSession ends a session/connection from the remote side
 			ceaseSub := uint8(4)
 			partial := 0
+			glued := false
+			var pending []byte // glued: the last handshake message, still to be sent
 			end := func(cn *memnet.Conn, how string) {
+				if glued {
+					tail := append([]byte{}, pending...)
+					pending = nil
+					if how == "cease" {
+						tail = append(tail, wire.Notif{Code: 6, Sub: ceaseSub}.Frame()...)
+						tail = append(tail, wire.Keepalive()...)
+					}
+					if len(tail) > 0 {
+						cn.RemoteSend(tail, nil)
+					}
+					if how == "reset" {
+						cn.RemoteReset()
+					} else {
+						cn.RemoteClose()
+					}
+					w.Settle()
+					return
+				}
 				if partial > 0 && (how == "close" || how == "reset") {
 					m := wire.Frame(wire.TypeUpdate, make([]byte, 21))
 					if len(cn.Snapshot().Writes) <= 1 {
@@ -130,7 +159,11 @@ func c11Prop(t *testing.T, r *hx.Run) func(c c11Case) hx.Verdict {
 				w.Settle()
 			}
 			toState := func(cn *memnet.Conn, state string) {
-				for _, m := range handshakeBytes(p, cn, state, 90) {
+				hs := handshakeBytes(p, cn, state, 90)
+				if glued && len(hs) > 0 {
+					pending, hs = hs[len(hs)-1], hs[:len(hs)-1]
+				}
+				for _, m := range hs {
 					cn.RemoteSend(m, nil)
 					w.Settle()
 				}
@@ -141,6 +174,7 @@ func c11Prop(t *testing.T, r *hx.Run) func(c c11Case) hx.Verdict {
 					ceaseSub = *f.Sub
 				}
 				partial = f.Partial
+				glued, pending = f.Glued && f.Partial == 0, nil
 				done := len(w.Net.Dials())
 				if fi == 0 {
 					done = 0 // the attempt made at Serve time already follows fault 0's plan
@@ -215,7 +249,7 @@ func c11Prop(t *testing.T, r *hx.Run) func(c c11Case) hx.Verdict {
 						continue
 					}
 					toState(cn, f.State)
-					wasEst := f.State == stEstablished && w.Sessions(p.Remote) > 0 && !cn.Snapshot().LocalClosed
+					wasEst := f.State == stEstablished && w.Sessions(p.Remote) > 0 && !cn.Snapshot().LocalClosed && !glued
 					before := len(w.Net.Dials())
 					tEnd := w.Net.Since()
 					end(cn, f.End)
@@ -234,6 +268,7 @@ func c11Prop(t *testing.T, r *hx.Run) func(c c11Case) hx.Verdict {
 				}
 			}
 			// the remote turns well-behaved
+			glued, pending = false, nil
 			done := len(w.Net.Dials())
 			if done > 0 && !w.Net.Dials()[done-1].Done {
 				// a stalled/slow attempt is still pending: it belongs to the fault prefix
@@ -394,6 +429,9 @@ func genC11(rt *rapid.T) c11Case {
 			if rapid.IntRange(0, 2).Draw(rt, "withpartial") == 0 {
 				f.Partial = pick(rt, "partial", 1, 18, 19, 20, 30, 39)
 			}
+		}
+		if (f.Kind == "close" || f.Kind == "reset" || f.Kind == "cease" || f.End != "") && f.Partial == 0 {
+			f.Glued = rapid.IntRange(0, 2).Draw(rt, "glued") == 0
 		}
 		if f.Kind == "cease" || f.End == "cease" {
 			if rapid.Bool().Draw(rt, "withsub") {
